@@ -189,7 +189,9 @@ Proof.
   - rproj. rewrite call_sa.
     destruct (call _ _ _ _ _ _ _ _ _ _ _) as [d o|o|d callee o].
     + reflexivity.
-    + rewrite leave_sa. destruct (leave r (s_id s)) as [r1 o1]. reflexivity.
+    + match goal with |- context [leave (r_set_dealer (set_authz r a) ?D) _] =>
+        change (r_set_dealer (set_authz r a) D) with (set_authz (r_set_dealer r D) a) end.
+      rewrite leave_sa. destruct (leave _ (s_id s)) as [r1 o1]. reflexivity.
     + unfold update_session. destruct (s_id callee =? meta_id).
       * change (r_set_meta (r_set_dealer (set_authz r a) d) callee)
           with (set_authz (r_set_meta (r_set_dealer r d) callee) a).
